@@ -64,6 +64,74 @@ def check_task_failures_marked(res, E):
         res.inconclusive.append("vacuity: only %d failing task paths" % n)
 
 
+def check_failure_flags(res, E):
+    """Run::run_failed and the decision at the end of Run::process, joined through the two flags: from any flag
+    state, after run_failed(err) for any err, no path of process that went through the worker scope returns Ok."""
+    rf = mir.struct_fields("Run", "src/engine.rs")
+    selfp = mir.Opq("&engine::Run", "self")
+    h, f = z3.Bool("flag_had_err"), z3.Bool("flag_is_fatal")
+
+    def fld(a):
+        if isinstance(a, mir.Ref) and len(a.loc) >= 3 and a.loc[0] == ("o", selfp.id) and a.loc[2][0] == "f":
+            return rf[a.loc[2][1]]
+        return None
+
+    def m_load(E_, st, frame, callee, argvals, dest_ty):
+        st.events.append(mir.Event("Atomic::load", argvals, None, ("", ""), "call", callee))
+        k = fld(argvals[0].get(()))
+        if k == "had_err":
+            return {(): st.mem.get(("FLAG", "h"), h)}
+        if k == "is_fatal":
+            return {(): st.mem.get(("FLAG", "f"), f)}
+        return {(): mir.Opq("bool", "load")}
+
+    def m_store(E_, st, frame, callee, argvals, dest_ty):
+        st.events.append(mir.Event("Atomic::store", argvals, None, ("", ""), "call", callee))
+        k = fld(argvals[0].get(()))
+        v = argvals[1].get(())
+        if k in ("had_err", "is_fatal"):
+            st.mem[("FLAG", "h" if k == "had_err" else "f")] = v if mir.is_z(v) else z3.BoolVal(bool(v))
+        return {(): mir.Str("()")}
+    models = {r"Atomic.*::load$": m_load, r"Atomic.*::store$": m_store}
+    body = E.prog.find("src/engine.rs", "Run", "run_failed")
+    marks = []
+    for p in E.explore(body, max_visits=2, nomut=[r"."], arg_values={"_1": {(): selfp}}, models=models):
+        if p.kind == "return":
+            marks.append((p, p.mem.get(("FLAG", "h"), h), p.mem.get(("FLAG", "f"), f)))
+    body = E.prog.find("src/engine.rs", "Run", "process")
+    res.functions.append("routinator::engine::Run::{run_failed, process} (MIR) joined through had_err / is_fatal")
+    n = 0
+    bad = None
+    for i, p in enumerate(E.explore(body, max_visits=2, nomut=[r"."], arg_values={"_1": {(): selfp}}, models=models, max_paths=3000)):
+        if p.kind != "return" or not any(e.kind == "call" and re.search(r"(^|::)scope$", e.name) for e in p.events):
+            continue
+        d = p.ret.get(("disc",))
+        if d is None:
+            res.inconclusive.append("Run::process path %d: result not a known Ok/Err" % i)
+            continue
+        for (mp, h1, f1) in marks:
+            n += 1
+            cond = [z3.substitute(c, (h, h1), (f, f1)) for c in p.cond] + list(mp.cond)
+            m = E.model(cond, d == 0) if mir.is_z(d) else (E.model(cond, z3.BoolVal(True)) if d == 0 else None)
+            if m is not None and bad is None:
+                bad = (i, p, "after run_failed(%s) from flags (had_err=%s, is_fatal=%s) Run::process returns Ok" % (
+                    "fatal" if any("is_fatal" in str(c) and not str(c).startswith("Not") for c in mp.cond) else "retry",
+                    m.eval(h, model_completion=True), m.eval(f, model_completion=True)))
+    res.distinct += n
+    res.samples.append({"failure_flag_obligations": n, "run_failed_paths": len(marks)})
+    if not n:
+        res.inconclusive.append("vacuity: no Run::process path through the worker scope / no run_failed path")
+    if bad:
+        i, p, what = bad
+        ok, note = native_unmarked(res)
+        fn = mprop.write_cex(res, "failure_flag_lost_%d" % i, p, E, what + "\n" + note)
+        if ok is False:
+            res.inconclusive.append("failure flags: %s - not reproduced natively" % what)
+        else:
+            res.violation("mir:failure-flag-lost", "a run in which a task marked a failure is reported as successful (its result is then published): %s%s"
+                          % (what, ("; " + note) if ok else ""), fn)
+
+
 _NATIVE = {}
 
 
@@ -184,4 +252,5 @@ def run(res, tier):
     res.rule = ("one case = one feasible MIR path of process_once classified by the forced outcome of the validation "
                 "run; assertion: no history-mutating or notifying event on a failed-run path; evaluations = z3 queries")
     check_task_failures_marked(res, E)
+    check_failure_flags(res, E)
     mprop.finish_engine(res, E)
